@@ -1037,7 +1037,7 @@ class Engine:
             raise Unsupported("class attribute " + ast.unparse(n))
         if isinstance(base, VDict) and n.attr in ("get", "pop", "setdefault", "keys", "values", "items", "copy", "update"):
             return VBound(base, n.attr)
-        if isinstance(base, VStr) and n.attr in ("format", "join", "lower", "upper", "strip", "startswith", "endswith"):
+        if isinstance(base, VStr) and n.attr in ("format", "join", "lower", "upper", "strip", "startswith", "endswith", "split", "replace"):
             return VBound(base, n.attr)
         if isinstance(base, VNum) and n.attr in ("lower", "upper", "strip"):
             raise PyRaise("AttributeError")
@@ -1595,6 +1595,9 @@ class Engine:
             return VStr(f.recv.s.join(q_.s for q_ in args[0].items))
         if isinstance(f, VBound) and isinstance(f.recv, VStr) and f.name in ("lower", "upper", "strip"):
             return VStr(getattr(f.recv.s, f.name)())
+        if isinstance(f, VBound) and isinstance(f.recv, VStr) and f.name in ("split", "replace") and args and all(isinstance(a_, VStr) for a_ in args) and not f.recv.s.startswith("<"):
+            r_ = getattr(f.recv.s, f.name)(*[a_.s for a_ in args])          # concrete string operation
+            return VTuple([VStr(x_) for x_ in r_]) if f.name == "split" else VStr(r_)
         if isinstance(f, VBound) and isinstance(f.recv, VStr) and f.name in ("startswith", "endswith") and len(args) == 1 and isinstance(args[0], VStr) and not f.recv.s.startswith("<"):
             return VBool(z3.BoolVal(getattr(f.recv.s, f.name)(args[0].s)))
         if isinstance(f, VBound) and isinstance(f.recv, VStr) and f.name == "format" and getattr(self, "concrete_format", False) and not args and all(isinstance(v_, VStr) for v_ in kw.values()):
